@@ -51,15 +51,31 @@ NPARTS = 8
 
 
 def _build_parts():
-    """compile the configuration groups of the harness in parallel; returns the object files"""
+    """compile the configuration groups of the harness in parallel; returns the object files.
+    An object file is reused when the preprocessed translation unit (every header of the tree under test expanded), the
+    flags and the compiler are byte-identical to those it was compiled from: any change of the library gives a new key."""
+    import hashlib
     os.makedirs(lib.BUILD, exist_ok=True)
+    cache = os.path.join(lib.BUILD, "c07_objcache")
+    os.makedirs(cache, exist_ok=True)
     flags = [f for f in lib.CXXFLAGS if f != "-g"] + BASE_FLAGS
+    cxxv = lib.sh([lib.CXX, "--version"])[1]
 
     def one(k):
-        out = os.path.join(lib.BUILD, "c07_part%d.o" % k)
-        cmd = [lib.CXX] + flags + ["-DC07_PART=%d" % k, "-I", os.path.join(lib.REPO, "include"), "-I", os.path.join(lib.VERIF, "harness"),
-                                   "-c", os.path.join(lib.VERIF, HARNESS), "-o", out]
-        rc, o, e = lib.sh(cmd, timeout=1200)
+        base = [lib.CXX] + flags + ["-DC07_PART=%d" % k, "-I", os.path.join(lib.REPO, "include"), "-I", os.path.join(lib.VERIF, "harness")]
+        src = os.path.join(lib.VERIF, HARNESS)
+        rc, o, e = lib.sh(base + ["-E", src], timeout=600)
+        if rc != 0:
+            return None, rc, o[-200:] + e
+        key = hashlib.sha256((cxxv + "\0" + " ".join(flags) + "\0" + o).encode()).hexdigest()[:32]
+        out = os.path.join(cache, "part%d_%s.o" % (k, key))
+        if os.path.exists(out):
+            os.utime(out)
+            return out, 0, "cached"
+        tmp = out + ".%d.tmp" % os.getpid()
+        rc, o, e = lib.sh(base + ["-c", src, "-o", tmp], timeout=1200)
+        if rc == 0:
+            os.replace(tmp, out)
         return out, rc, o + e
 
     with cf.ThreadPoolExecutor(max_workers=NPARTS) as ex:
@@ -67,6 +83,9 @@ def _build_parts():
     bad = [r for r in res if r[1] != 0]
     if bad:
         raise lib.MachineryError("harness does not compile against %s:\n%s" % (lib.REPO, bad[0][2][-1500:]))
+    olds = sorted((os.path.join(cache, f) for f in os.listdir(cache)), key=os.path.getmtime)
+    for f in olds[:-12 * NPARTS]:
+        os.unlink(f)
     return [r[0] for r in res]
 
 
@@ -103,9 +122,14 @@ RULE = ("A case is a history: `new kind=var|opt|oref|exp alts=.. n=N` creates N 
 ASSUMPTIONS = ["std::variant / std::optional / std::expected of libstdc++ 12 (-std=c++23) are the reference for spec validation (R2); "
                "std::expected::and_then/or_else (absent from libstdc++ 12) and optional<T&> (C++26) are referenced by their "
                "definition in the working draft / P2988, written out in the harness",
-               "element types: self move assignment is a no-op, a moved-from element holds a fixed marker value, != is the negation "
-               "of == and == is symmetric (hypotheses `hne`, `hsym` of the relational theorems; true for int, float incl. NaN, Trk, Mo)",
-               "a trivially copyable alternative is left unchanged by a move (hypothesis `htriv` of the history theorems)",
+               "element types: self copy / move assignment is a no-op, != is the negation of == and == is symmetric (hypotheses `hne`, "
+               "`hsym` of the relational theorems; true for int, float incl. NaN, Trk, Mo and the Sm kinds)",
+               "the four special members of the element types are arbitrary functions on values (structure `Elem`: no laws); the "
+               "variant's trait bits are sound for them (hypothesis `TrivOK`: a special member of the variant is the defaulted bitwise "
+               "one only when every alternative's corresponding members are the plain copy - what is_trivially_* means)",
+               "no alternative has a potentially-throwing copy constructor together with a non-throwing move constructor (hypothesis "
+               "`hfb` of assign_refines / step_refines / run_refines / expected_refines); the excluded class is known finding "
+               "F-C07-copy-assign-no-copy-then-move (kind x), theorem assign_fallback_counterexample",
                "histories only name existing objects and alternative indices (Spec.valid); operator* / error() are only applied where "
                "their precondition holds; float -> integer conversions are not driven with NaN"]
 TRUSTED = ["hand model Tetl/C07/Model.lean tied to the source by the correspondence run (R1) on every run",
@@ -119,13 +143,15 @@ THEOREMS = {
     "vcat": [], "ocat": [], "ecat": [],
     "visit": [T + "visit_dispatch", T + "visit1_active", T + "visit2_active"],
     "emplace": [T + "step_refines", T + "run_refines", T + "optional_refines", T + "expected_refines"],
-    "assign": [T + "assign_refines", T + "assignSelf_refines", T + "step_refines", T + "run_refines"],
+    "assign": [T + "assign_refines", T + "assign_fallback_counterexample", T + "assignSelf_refines", T + "step_refines", T + "run_refines",
+               T + "optional_refines", T + "expected_refines"],
     "ctor": [T + "construct_refines", T + "step_refines", T + "run_refines"],
     "swap": [T + "swap2_refines", T + "swapSelf_refines", T + "step_refines", T + "run_refines"],
     "rel": [T + "varRel_eq", T + "optRel_eq"], "relm": [T + "optRel_eq"],
     "reln": [T + "optRelNullR_eq", T + "optRelNullL_eq"], "relv": [T + "optRelValR_eq", T + "optRelValL_eq"],
     "conv": [T + "step_refines", T + "assign_refines", T + "select_eq"],
-    "get_if": [T + "getIf_eq"], "value_or": [T + "valueOr_eq"], "and_then": [T + "andThen_eq"],
+    "get_if": [T + "getIf_eq"], "value_or": [T + "valueOr_eq", T + "expValueOr_eq"], "and_then": [T + "andThen_eq", T + "expAndThen_eq"],
+    "or_else": [T + "orElse_eq", T + "expOrElse_eq"],
     "reset": [T + "optional_refines"], "null": [T + "optional_refines"], "val": [T + "optional_refines"],
     "ctor_val": [T + "expected_refines"], "ctor_err": [T + "expected_refines"], "ctor_def": [T + "expected_refines"],
 }
@@ -458,8 +484,9 @@ def group_of(case):
 
 CLAIMED = True
 TECHNIQUE = ("Lean 4 proof: hand model of etl::variant (index + active value, every union access checked, visit_with_index modelled "
-             "with its next_seq mixed-radix recursion, assign/construct/destroy/comparison through that dispatch, generic three-move "
-             "swap), of optional and expected as wrappers of it, refined to a "
+             "with its next_seq mixed-radix recursion, assign/construct/destroy/comparison through that dispatch, the four special "
+             "members selected by the trait bits of the requires-clauses and applied to the elements as abstract copy/move "
+             "constructor and assignment functions, generic three-move swap), of optional and expected as wrappers of it, refined to a "
              "declarative sum-type spec for all histories; model tied to the code by exhaustive small-scope + random "
              "correspondence runs against std::variant/optional/expected")
 LEVEL_TEXT = ("etl::variant is modelled as (index, value of the active union member) with every union access behind the I == index() "
@@ -470,15 +497,27 @@ LEVEL_TEXT = ("etl::variant is modelled as (index, value of the active union mem
               "member is read), and — with no bound on history length or number of objects — that every history of emplace, in-place "
               "construction, copy/move assignment and construction (trivial and non-trivial special-member paths, self forms), and the "
               "generic three-move swap never fails and leaves every object with the index and value the sum-type spec prescribes, "
-              "moved-from sources included. optional (engaged = index 1, reset = emplace<0>(nullopt)) and expected (value = index 0) are "
+              "moved-from sources included. The element's copy constructor, move constructor, copy assignment and move assignment are "
+              "four arbitrary functions on values (no laws), so the theorems also say WHICH special member produces the stored value: "
+              "[variant.assign] / [variant.ctor] / [optional.assign] / [expected.object.assign] - same alternative: the element's "
+              "assignment; different alternative: destroy + construction from the source - with the variant's defaulted (bitwise) "
+              "members taken exactly when the trait bits of the requires-clauses say so. The spec carries the copy-then-move that "
+              "[variant.assign]/2.4 and reinit-expected prescribe for an alternative with a throwing copy and a non-throwing move "
+              "constructor; etl constructs in place there (known finding, counterexample theorem; the history theorems exclude that "
+              "class by hypothesis). optional (engaged = index 1, reset = emplace<0>(nullopt)) and expected (value = index 0) are "
               "proved to be simulations of Option / value-or-error under that history theorem. All six relational operators of "
               "variant, of optional/optional (mixed T/U), optional/nullopt and optional/value in both operand orders are proved equal "
               "to the std definitions for arbitrary element operator tables (NaN-like ones included); value_or, and_then and get_if are "
-              "proved equal to their declarative specs. Which alternative the converting constructor selects (best non-narrowing "
-              "candidate, none when tied) is modelled and compared with both libraries on every run but not proved. The model is tied to the current source on every run by executing model and implementation "
-              "on the same histories (every from/to state pair x every assignment, construction, swap and comparison form over 9 "
-              "variant, 4 optional, 4 expected configurations with trivially copyable, non-trivial and move-only alternatives and "
-              "optional<int&>; all depth-2/3 histories; random long histories) under ASan/UBSan; the spec is validated against "
+              "proved equal to their declarative specs, and so are optional::or_else and expected's value_or, and_then, or_else and "
+              "error() (with their preconditions shown to hold on the paths that use them). The alternative the converting constructor / assignment selects (a left-to-right "
+              "scan keeping the best non-narrowing candidate and a tie flag) is proved equal to the declarative selection (the unique "
+              "viable alternative strictly better than all others) for any candidate table. Value categories cannot be carried by a "
+              "value-level model: which reference kind visit, unchecked_get, operator[], operator*, error(), and_then and or_else hand "
+              "on for lvalue, const lvalue, rvalue and const rvalue objects, and what a by-value visitor leaves behind in the source, "
+              "is observed at compile time (decltype matrix) and at run time and compared with std line by line. The model is tied to the current source on every run by executing model and implementation "
+              "on the same histories (every from/to state pair x every assignment, construction, swap and comparison form over 15 "
+              "variant, 9 optional, 7 expected configurations with trivially copyable, non-trivial, move-only alternatives, six "
+              "kinds whose four special members are distinguishable in the stored value, and optional<int&>; all depth-2/3 histories; random long histories) under ASan/UBSan; the spec is validated against "
               "libstdc++ on the same histories.")
 LEVEL_NOTE = ("Trusted: Lean kernel + propext/Classical.choice/Quot.sound; the hand model's fidelity outside the explored inputs; "
               "g++-12/ASan; libstdc++ 12 as oracle for spec validation. Overload resolution and template constraints are the compiler's: "
@@ -488,17 +527,16 @@ LEVEL_NOTE = ("Trusted: Lean kernel + propext/Classical.choice/Quot.sound; the h
               "in libstdc++ 12). Two members the property names do not exist in the library (expected = unexpected<G>, optional<T&> "
               "from optional<U>) and are recorded as known findings, replayed on every run.")
 CORRESPONDENCE_ONLY = [
-    "converting constructor / assignment selection: Model.select (left-to-right scan keeping the best non-narrowing candidate and a "
-    "tie flag) and Spec.select (the unique candidate strictly better than all others) are both executed on every argument type x "
-    "configuration and compared with etl and std; the theorem select_eq (scan = declarative) of DESIGN §4 is not proved",
     "optional<T&> (bind/rebind, reset, copy, swap of the pointer, write-through, comparisons): the model is a nullable cell index; "
     "compared with a pointer reference on every run, no theorem beyond the optional relational theorems it reuses",
-    "or_else (optional, expected), expected::and_then / value_or / has_value / error(): modelled in the driver line by line "
-    "(`has ? *this : f()`), compared on every run, no separate theorem",
-    "rvalue forms (value_or &&, or_else &&): the moved-from marking of the source is modelled in the driver, compared on every run",
-    "which assignment path a converting assignment takes (emplace<T_j> for class alternatives, temporary + move assignment for "
-    "scalar ones; optional::operator=(U&&) versus optional(U) + move assignment): observed; both paths are modelled and both end in "
-    "the state the history theorem gives for emplace",
+    "rvalue forms (value_or &&, or_else &&) and the copy / move construction of the returned object: Model.orElse / expValueOr / "
+    "expAndThen / expOrElse give the element that is handed on (theorems orElse_eq, expValueOr_eq, expAndThen_eq, expOrElse_eq, "
+    "expError_eq); marking the source as moved-from and copy / move constructing the result with `el` is done in the driver, "
+    "compared on every run",
+    "which assignment path a converting assignment takes (class alternatives: assignment to the held T_j / emplace<T_j> otherwise; "
+    "scalar ones: temporary variant + move assignment; optional::operator=(U&&) and operator=(optional<U>) likewise): modelled in the "
+    "driver with the element operations (`el.ma` for the assign-through), compared on every run with element kinds that tell an "
+    "assignment from a construction; the theorems cover the variant operations these paths are made of",
     "conversion of the argument value (short -> int, float -> Trk(int) truncation, int -> float) and the conversion-rank table of the "
     "element types: test data of the driver, validated by R1/R2",
     "emplace<T> / get_if<T> / holds_alternative<T> by type: index_of<T> is compile-time; the model uses the index",
@@ -507,6 +545,14 @@ CORRESPONDENCE_ONLY = [
     "covered by the history theorem only through those variant operations",
 ]
 UNPROVED_OBSERVED = [
+    "value categories (observed, not proved - a value-level Lean model cannot carry them): the reference kind (T&, T const&, T&&, "
+    "T const&&) that visit hands to the visitor for every category of one variant and every pair of categories of two, of "
+    "unchecked_get / std::get and operator[], of optional::operator* and the argument of optional::and_then, of expected::operator*, "
+    "error() and the argument of expected::and_then / or_else, for lvalue, const lvalue, rvalue and const rvalue objects: a "
+    "compile-time decltype matrix plus the run-time overload a forwarding visitor receives, etl against std line by line "
+    "(expected's monadic members against [expected.object.monadic] written out, libstdc++ 12 lacks them); the moved-from state a "
+    "by-value visitor / `T x = *move(o)` leaves in the source is part of the compared state; the driver's side of these lines is the "
+    "forwarding table of the standard (category in = category out), not a theorem. optional has no value() member.",
     "element lifetimes (each alternative constructed once / destroyed once; arguments aliasing the variant in emplace and converting "
     "assignment): property C03; ASan/UBSan observe the explored histories",
 ]
